@@ -325,3 +325,38 @@ class L2Gen:
             if nk:
                 self.created_before.append(nk)
         return {"version": r.choice([2, 3]), "options": [["o1", r.choice([1, 2, 3])]], "statements": sts}
+
+
+def persist_case(rng):
+    """just_once rows holding every kind of scalar (visible and hidden fields), read back by nickname
+    and by table name from ordinary templates in every iteration: what a continuation must restore."""
+    v = rng.choice([2, 3])
+    pool = [["lit", 7], ["lit", "abc"], ["lit", "12"], ["lit", "007"], ["lit", True], ["lit", None],
+            ["tmpl", [["expr", ["add", ["int", 3], ["int", 4]]]]], ["tmpl", [["text", "q"], ["expr", ["int", 5]], ["text", ""]]]]
+    names = ["f1", "f2", "__h", "f3"]
+    rng.shuffle(names)
+    jfields = [[n, rng.choice(pool)] for n in names[: rng.randint(2, 4)]]
+    if not any(n == "__h" for n, _ in jfields) and rng.random() < 0.7:
+        jfields.append(["__h", rng.choice(pool[:4])])
+    j = {"object": "J", "nickname": "jq", "just_once": True, "fields": jfields}
+    sts = []
+    readers = []
+    for n, _ in jfields:
+        how = rng.choice(["nick", "table"])
+        base = "jq" if how == "nick" else "J"
+        if rng.random() < 0.7:
+            readers.append(["tmpl", [["expr", ["attr", ["name", base], n]]]])
+        else:
+            readers.append(["tmpl", [["text", "x"], ["expr", ["attr", ["name", base], n]], ["text", ""]]])
+    a = {"object": "A", "fields": [[f"r{i}", fd] for i, fd in enumerate(readers)] + [["ref", ["ref", rng.choice(["jq", "J"])]]]}
+    if rng.random() < 0.4:
+        a["count"] = ["lit", 2]
+    if rng.random() < 0.5:
+        sts = [j, a]
+    else:
+        sts = [a, j] if False else [j, {"object": "B", "fields": [["n", ["lit", 1]]]}, a]
+    if rng.random() < 0.4:
+        k2 = {"object": "K", "just_once": True, "fields": [["__h", ["lit", 9]], ["f1", ["tmpl", [["expr", ["attr", ["name", "jq"], "id"]]]]]]}
+        sts.insert(1, k2)
+        sts.append({"object": "C", "fields": [["r", ["tmpl", [["expr", ["attr", ["name", "K"], "__h"]]]]]]})
+    return {"version": v, "options": [], "statements": sts}
